@@ -184,6 +184,8 @@ pub fn named4() -> Vec<Cfg> {
         cfg("two-roots-sharing-leaf", vec![t("a", B, &["c"]), t("b", B, &["c"]), t("c", B, &["d"]), t("d", B, &[])], &["a", "b"]),
         cfg("dep-before-dependent", vec![t("a", B, &["b"]), t("b", B, &["c"]), t("c", B, &["d"]), t("d", B, &[])], &["d", "a"]),
         cfg("dependent-before-dep", vec![t("a", B, &["b"]), t("b", B, &["c"]), t("c", B, &["d"]), t("d", B, &[])], &["a", "d"]),
+        cfg("build-over-aggregate-of-two-builds", vec![t("a", B, &["b"]), t("b", A, &["c", "d"]), t("c", B, &[]), t("d", B, &[])], &["a"]),
+        cfg("service-over-aggregate-of-build-and-service", vec![t("a", S, &["b"]), t("b", A, &["c", "d"]), t("c", B, &[]), t("d", S, &[])], &["a"]),
     ]
 }
 
